@@ -300,6 +300,112 @@ def unit_canary():
     return Unit('canary/backward-claimed-forward', run, kind='canary', expect='refuted')
 
 
+# --------------------------------------------------------------------------
+# operator classes: constructor arguments of derivative / adjoint (delegation to finite_diff is proved above)
+
+DIFF = 'odl.discr.diff_ops:'
+CLASSES = ('PartialDerivative', 'Gradient', 'Divergence', 'Laplacian')
+
+
+def unit_class(cname, method, pad_mode, nonzero_const):
+    """derivative(point) is the operator itself unless it is affine (constant padding with a non-zero constant), then the SAME scheme
+    (domain, range, axis, method, pad_mode) with pad_const = 0; adjoint is minus the partner class on swapped spaces with the method /
+    padding named by _ADJ_METHOD / _ADJ_PADDING (proved to be the exact transpose by transpose/*), and raises for affine operators"""
+    def run(ctx):
+        I = ctx.I
+
+        def path(st):
+            fr = ip.Frame(st)
+            made = []
+            adjm, adjp = I.module_attr('odl.discr.diff_ops', '_ADJ_METHOD'), I.module_attr('odl.discr.diff_ops', '_ADJ_PADDING')
+            dom, ran = ip.Obj(I.get_class('odl.set.space:LinearSpace')), ip.Obj(I.get_class('odl.set.space:LinearSpace'))
+            dom.tag, ran.tag = 'DOM', 'RAN'
+
+            def mk_ctor(cn):
+                def ctor(I_, fr_, self, *a, **kw):
+                    self.fields['ctor'] = (cn, a, dict(kw))
+                    made.append(self)
+                return ctor
+            from contracts import oplib
+            st.cuts.update(oplib.operator_cuts())
+            for cn in CLASSES:
+                st.cuts[DIFF + cn + '.__init__'] = mk_ctor(cn)
+            st.cuts['odl.operator.operator:Operator.__neg__'] = lambda I_, fr_, self: ('neg', self)
+            op = ip.Obj(I.get_class(DIFF + cname))
+            c = S(z3.Real('pad_const'))
+            if nonzero_const:
+                st.assume(core.s_not(core.sbool(core.sc_eq(c, 0))))
+            else:
+                c = 0.0
+            op.fields.update({'_Operator__domain': dom, '_Operator__range': ran, 'method': method, 'pad_mode': pad_mode, 'pad_const': c, 'axis': 1,
+                              '_Operator__is_linear': not (pad_mode == 'constant' and nonzero_const)})
+            out = {'op': op, 'dom': dom, 'ran': ran, 'adjm': adjm, 'adjp': adjp}
+            try:
+                out['der'] = I.call(I._getattr(op, 'derivative', fr), [None], {}, fr)
+            except ip.PyRaise as e:
+                out['der_exc'] = e.exc
+            try:
+                out['adj'] = I._getattr(op, 'adjoint', fr)
+            except ip.PyRaise as e:
+                out['adj_exc'] = e.exc
+            return ('ok', out)
+        info = {'class': cname, 'method': method, 'pad_mode': pad_mode, 'affine': nonzero_const}
+        sig = {'PartialDerivative': ('domain', 'axis', 'range', 'method', 'pad_mode', 'pad_const'), 'Gradient': ('domain', 'range', 'method', 'pad_mode', 'pad_const'),
+               'Divergence': ('domain', 'range', 'method', 'pad_mode', 'pad_const'), 'Laplacian': ('domain', 'range', 'pad_mode', 'pad_const')}
+
+        def args_of(o):
+            cn, a, kw = o.fields['ctor']
+            d = dict(zip(sig[cn], a))
+            d.update(kw)
+            return cn, d
+        for st, (status, r) in ctx.explore(path):
+            op = r['op']
+            affine = pad_mode == 'constant' and nonzero_const
+            if 'der_exc' in r:
+                ctx.fail(st, 'derivative does not raise', 'raises %s' % lib.exc_desc(r['der_exc']), info)
+            elif not affine:
+                ctx.prove(st, 'derivative of a linear difference operator is the operator itself', r['der'] is op, info)
+            else:
+                d = r['der']
+                ok = isinstance(d, ip.Obj) and 'ctor' in d.fields
+                ctx.prove(st, 'derivative of an affine difference operator is a new operator of the same class', ok and args_of(d)[0] == cname, info)
+                if ok:
+                    cn, a = args_of(d)
+                    ctx.prove(st, 'derivative: same domain and range', a.get('domain') is r['dom'] and a.get('range') is r['ran'], info)
+                    if cname != 'Laplacian':
+                        ctx.prove(st, 'derivative: same difference method', a.get('method', 'forward') == method, dict(info, got=a.get('method', '<default forward>')))
+                    ctx.prove(st, 'derivative: same padding mode, pad_const == 0', a.get('pad_mode', 'constant') == pad_mode and a.get('pad_const', 0) == 0, info)
+                    if cname == 'PartialDerivative':
+                        ctx.prove(st, 'derivative: same axis', a.get('axis') == 1, info)
+            if affine and cname != 'Laplacian':
+                ctx.prove(st, 'adjoint of an affine operator raises ValueError', 'adj_exc' in r and I.exc_isinstance(r['adj_exc'], 'ValueError'), info)
+                continue
+            if 'adj_exc' in r:
+                ctx.fail(st, 'adjoint does not raise', 'raises %s' % lib.exc_desc(r['adj_exc']), info)
+                continue
+            adj = r['adj']
+            if cname == 'Laplacian':
+                ok = isinstance(adj, ip.Obj) and 'ctor' in adj.fields
+                ctx.prove(st, 'Laplacian.adjoint is a Laplacian on swapped spaces with the same padding and pad_const 0', ok and args_of(adj)[0] == 'Laplacian'
+                          and args_of(adj)[1].get('domain') is r['ran'] and args_of(adj)[1].get('range') is r['dom'] and args_of(adj)[1].get('pad_mode') == pad_mode
+                          and args_of(adj)[1].get('pad_const', 0) == 0, info)
+                continue
+            neg = isinstance(adj, tuple) and adj[0] == 'neg'
+            ctx.prove(st, 'adjoint is MINUS the partner operator', neg, info)
+            if not neg:
+                continue
+            cn, a = args_of(adj[1])
+            partner = {'PartialDerivative': 'PartialDerivative', 'Gradient': 'Divergence', 'Divergence': 'Gradient'}[cname]
+            ctx.prove(st, 'adjoint: partner class on swapped spaces', cn == partner and a.get('domain') is r['ran'] and a.get('range') is r['dom'], info)
+            ctx.prove(st, 'adjoint: method == _ADJ_METHOD[method], pad_mode == _ADJ_PADDING[pad_mode]', a.get('method', 'forward') == r['adjm'][method] and a.get('pad_mode', 'constant') == r['adjp'][pad_mode], info)
+            if 'pad_const' in a:
+                ctx.prove(st, 'adjoint: pad_const handed on (zero for a linear operator with constant padding)', core.sc_eq(a['pad_const'], op.fields['pad_const']), info)
+            if cname == 'PartialDerivative':
+                ctx.prove(st, 'adjoint: same axis', a.get('axis') == 1, info)
+    return Unit('class/%s/%s/%s/%s' % (cname, method, pad_mode, 'affine' if nonzero_const else 'linear'), run,
+                funcs=[DIFF + cname + '.derivative', DIFF + cname + '.adjoint'], config={'class': cname, 'method': method, 'pad_mode': pad_mode, 'affine': nonzero_const})
+
+
 def units(tier, seed):
     I = om.new_interp()
     methods, pads, _, _ = tables(I)
@@ -315,10 +421,57 @@ def units(tier, seed):
         for p in ('constant', 'periodic', 'order1'):
             for ax in (0, 1):
                 us.append(unit_nd(m, p, ax))
+    for cn in CLASSES:
+        for m in (methods if cn != 'Laplacian' else ('forward',)):
+            for p in (pads if cn != 'Laplacian' else ('constant', 'periodic', 'symmetric')):
+                us.append(unit_class(cn, m, p, False))
+            us.append(unit_class(cn, m, 'constant', True))
     us.append(unit_canary())
     return us
 
 
+def replay_class(ob):
+    """native: derivative(x)(h) == A(x + h) - A(x) (the operators are affine) and <A x, y> == <x, A* y> for the linear ones, real classes on a small space"""
+    import os
+    import sys
+    root = os.environ.get('PYVC_REPO', '/repo')
+    if root not in sys.path:
+        sys.path.insert(0, root)
+    import warnings
+    warnings.filterwarnings('ignore')
+    import numpy as np
+    import odl
+    from odl.discr import diff_ops as D
+    cfg = ob.get('config') or {}
+    cn, method, pm, affine = cfg.get('class'), cfg.get('method'), cfg.get('pad_mode'), cfg.get('affine')
+    X = odl.uniform_discr([0, 0], [1, 2], (5, 4))
+    rng = np.random.default_rng(0)
+    kw = {'pad_mode': pm, 'pad_const': 1.5 if affine else 0}
+    try:
+        if cn == 'Laplacian':
+            A = D.Laplacian(X, **kw)
+        elif cn == 'Gradient':
+            A = D.Gradient(X, method=method, **kw)
+        elif cn == 'Divergence':
+            A = D.Divergence(range=X, method=method, **kw)
+        else:
+            A = D.PartialDerivative(X, axis=1, method=method, **kw)
+        x, h = A.domain.element(rng.standard_normal(A.domain.shape)), A.domain.element(rng.standard_normal(A.domain.shape))
+        d = A.derivative(x)(h) - (A(x + h) - A(x))
+        if d.norm() > 1e-9:
+            return {'reproduced': True, 'detail': '%s(method=%r, %r).derivative(x)(h) differs from A(x+h) - A(x) by %r' % (cn, method, kw, d.norm())}
+        if not affine:
+            y = A.range.element(rng.standard_normal(A.range.shape))
+            l, r = A(x).inner(y), x.inner(A.adjoint(y))
+            if abs(l - r) > 1e-9 * (1 + abs(l)):
+                return {'reproduced': True, 'detail': '%s(method=%r, %r): <Ax,y> = %r, <x,A*y> = %r' % (cn, method, kw, l, r)}
+    except Exception as e:
+        return {'reproduced': False, 'detail': 'native evaluation raised %s: %s' % (type(e).__name__, e)}
+    return {'reproduced': False, 'detail': 'derivative / adjoint agree natively'}
+
+
 def replay(ob):
+    if ob['unit'].startswith('class/'):
+        return replay_class(ob)
     from contracts import replay_fd
     return replay_fd.replay(ob)
